@@ -51,7 +51,7 @@ func runC13(c *core.Case) {
 		// key from an altitude inside the key scale [-O, 2^E - O) and (mostly) inside the spatial scale
 		lo, hi := -O, pow2(E)-O-1
 		if r.P(0.9) {
-			lo, hi = clampI(lo, -(1 << 25), 1<<25-1), clampI(hi, -(1<<25), 1<<25-1)
+			lo, hi = clampI(lo, -(1<<25), 1<<25-1), clampI(hi, -(1<<25), 1<<25-1)
 		}
 		if lo > hi {
 			lo, hi = hi, lo
